@@ -300,7 +300,7 @@ var clauseKeywords = map[string]bool{
 	"lemma": true, "requires": true, "ensures": true, "top-ensures": true, "modifies": true, "allocates": true,
 	"panics": true, "abstract": true, "nosafety": true, "loop": true, "invariant": true, "top-invariant": true,
 	"decreases": true, "assert": true, "alias": true, "props": true, "recvnonnil": true, "ghostset": true,
-	"end": true, "opaque": true, "witness": true, "trusted-pure": true, "crlf-discipline": true, "crlf-exempt": true, "replay-go": true, "appends-raw": true, "fresh-override": true, "fresh-except": true, "macro": true, "ghostset-at-entry": true, "abstract-too": true, "replay-import": true, "noinline": true, "replay-decl": true, "unreachable-return": true, "frame-prop": true,
+	"end": true, "opaque": true, "witness": true, "trusted-pure": true, "crlf-discipline": true, "crlf-exempt": true, "replay-go": true, "appends-raw": true, "fresh-override": true, "fresh-except": true, "macro": true, "ghostset-at-entry": true, "abstract-too": true, "replay-import": true, "noinline": true, "replay-decl": true, "unreachable-return": true, "frame-prop": true, "immutable": true,
 }
 
 // parseContractFile reads the //@ lines of one file.
@@ -406,6 +406,24 @@ func (p *contractParser) line(t string, no int) error {
 		return p.specFunc(kw == "rec", rest, no)
 	case "fresh-override":
 		return p.freshOverride(rest)
+	case "immutable":
+		// immutable Type.field :: reason  - the field is written only while its object is being constructed
+		// (checked over the whole module on every run, see World.immutableOK); unknown calls of the abstract
+		// mode then leave it alone
+		reason := ""
+		if i := strings.Index(rest, "::"); i >= 0 {
+			reason = strings.TrimSpace(rest[i+2:])
+			rest = strings.TrimSpace(rest[:i])
+		}
+		key := strings.TrimSpace(rest)
+		if strings.Count(key, ".") == 1 {
+			key = p.pkg.Name() + "." + key
+		}
+		if reason == "" || strings.Count(key, ".") != 2 {
+			return fmt.Errorf("immutable needs: Type.field :: reason")
+		}
+		p.w.immutables[key] = &immutableDecl{Key: key, Reason: reason}
+		return nil
 	case "macro":
 		// macro NAME(p1, p2) = expr  (parameters may be of any kind; expanded at each use)
 		i := strings.Index(rest, "(")
